@@ -25,7 +25,7 @@ From SK Require Import lib.LGraph model.C01_Model model.C02_Model model.C09_Mode
   proof.C09_Canon proof.C09_Valid proof.C09_Balance proof.C09_Main proof.C09_Indep proof.C09_Indep2 proof.C09_ValidRC proof.C09_WL proof.C09_NautyRigid proof.C09_Nauty.
 From SK Require Import lib.StrJoin model.C09_Strings model.C09_State proof.C09_Str proof.C09_Expand proof.C09_Graph proof.C09_Backends proof.C09_State proof.C09_StrFit.
 From SK Require Import model.C09_Helpers proof.C09_Helpers model.C09_Records proof.C09_Records proof.C09_Top proof.C09_Opt.
-From SK Require Import model.C01_String model.C01_HBal model.C09_Normalize proof.C09_Normalize proof.C09_NormBalance proof.C09_WLRefuted proof.C09_WLFix.
+From SK Require Import model.C01_String model.C01_HBal model.C09_Normalize proof.C09_Normalize proof.C09_NormBalance proof.C09_WLRefuted proof.C09_WLFix proof.C09_NautyFix2.
 From SK Require model.C08_Model proof.C08_Spec model.C01_Opts.
 Import ListNotations.
 
@@ -666,9 +666,8 @@ Print Assumptions C09_canonicalise_fails_iff.
          wl-tied-colours-distinguishable: distinguishable atoms that share their WL colour are ordered by the input numbering);
        * fixed point: the text puts NO condition on it.  wl: proved without any condition on the colours (tied colours
          included) for every parsed presentation of the canonical graphs and at string level (C09_fixed_point_wl,
-         C09_canonical_rsmi_fixed_point_wl).  nauty: proved for rigid reactant graphs (_rigid); on
-         reactant graphs with automorphisms the clause is ORACLE ONLY (checked unconditionally on every canonicaliser case:
-         canon-fixed-point; it holds on all populations).
+         C09_canonical_rsmi_fixed_point_wl).  nauty: proved for EVERY reactant graph in section 9 (round 6:
+         C09_fixed_point_nauty, C09_canonical_rsmi_fixed_point_nauty); the theorems named _rigid are special cases.
        Vocabulary (proof/C09_Graph.v, proof/C09_Backends.v):
          [same_graph X Y]   = Permutation (gnodes X) (gnodes Y) /\ Permutation (map nflip (gedges X)) (map nflip (gedges Y)),
                               nflip (u, v, o) = (min u v, max u v, o): the same labelled graph, whatever the order of the atom
@@ -839,3 +838,45 @@ Theorem C09_canonical_graphs_parsed : forall (G H Gc1 : mgraph) (order1 : list N
   exists pairs1 Gc1' Hc1', canonicalise_with Gc1 H = Some (Gc1', pairs1, Hc1') /\ parsed Gc1' /\ parsed Hc1'.
 Proof. exact canonical_graphs_parsed. Qed.
 Print Assumptions C09_canonical_graphs_parsed.
+
+(** 9. ROUND 6: the nauty fixed point for EVERY reactant graph (no hypothesis on its automorphisms; proof/C09_NautyFix.v,
+       proof/C09_NautyFix2.v).  Why the code's tie-breaking makes the second run the identity: the canonical reactant graph is
+       numbered by the best leaf of the first search; its search tree is the image of the first tree; on the path to the
+       identity order the target cell at depth j contains no individualised atom - only ids > j - and it contains j + 1, so
+       (children are visited in increasing atom_map = id) the identity order 1..N is the FIRST leaf of the depth-first
+       enumeration; its label is the minimal one and [visit] replaces the best leaf only by a strictly smaller label.  Hence
+       the second run renames nothing: not merely "equal up to an automorphism of the canonical reactant graph" but EQUAL -
+       which matters, because an automorphism of the reactant graph need not be one of the product graph. *)
+Theorem C09_nauty_second_order : forall (G G' : mgraph) (f1 : N -> N),
+  wf G -> (forall a b, f1 a = f1 b -> a = b) ->
+  (forall n, In n (node_ids G) -> f1 n = sigma_of (nauty_order G) n) ->
+  parsed G' -> presents f1 G G' ->
+  nauty_order G' = map f1 (nauty_order G).
+Proof. exact nauty_order_after. Qed.
+Print Assumptions C09_nauty_second_order.
+
+(** fixed point, graph level: every parsed presentation (G', H') of the canonical graphs - in particular what the parser
+    returns for the canonical string - gets the canonical order 1..N and is canonicalised to the canonical graphs again.
+    Supersedes C09_fixed_point_nauty_rigid (no [rigid], no [els_ok]). *)
+Theorem C09_fixed_point_nauty : forall G H : mgraph,
+  parsed G -> parsed H -> (exists s, In s (node_ids G) /\ In s (node_ids H)) ->
+  exists (pairs1 : list (N * N)) (Gc1 Hc1 : mgraph),
+    canonicalise_nauty G H = Some (Gc1, pairs1, Hc1) /\
+    forall (G' H' : mgraph), parsed G' -> parsed H' -> same_graph G' Gc1 -> same_graph H' Hc1 ->
+      nauty_order G' = map N.of_nat (seq 1 (length (gnodes G))) /\
+      exists (pairs2 : list (N * N)) (Gc2 Hc2 : mgraph),
+        canonicalise_nauty G' H' = Some (Gc2, pairs2, Hc2) /\ same_graph Gc2 Gc1 /\ same_graph Hc2 Hc1.
+Proof. exact fixed_point_nauty_all. Qed.
+Print Assumptions C09_fixed_point_nauty.
+
+(** ... and at string level: CanonRSMI(backend="nauty").canonical_rsmi is a fixed point of the canonicaliser for every
+    reaction, relative to the two RDKit contracts [writer_ok] / [reads_back] only.  With C09_canonical_rsmi_fixed_point_wl
+    this is the text's unconditional fixed-point clause for both back-ends of the quantifier. *)
+Theorem C09_canonical_rsmi_fixed_point_nauty : forall (W : mgraph -> str) (P : str -> option (mgraph * mgraph)) (G H : mgraph),
+  writer_ok W ->
+  parsed G -> parsed H -> (exists s, In s (node_ids G) /\ In s (node_ids H)) ->
+  (forall Gc1 pairs1 Hc1, canonicalise_nauty G H = Some (Gc1, pairs1, Hc1) -> reads_back W P Gc1 Hc1) ->
+  exists s G' H', canonical_rsmi W (canonicalise_nauty G H) = Some s /\ P s = Some (G', H') /\
+                  canonical_rsmi W (canonicalise_nauty G' H') = Some s.
+Proof. exact canonical_rsmi_fixed_point_nauty_all. Qed.
+Print Assumptions C09_canonical_rsmi_fixed_point_nauty.
